@@ -49,7 +49,7 @@ theorem abortExit_rel {cfg : Cfg} (he : cfg.attemptEnd = none) (tl : Bool) {a : 
     simp only [buildOutcome_run, pure_run, throw_run]
     intro _
     have hls : we2.rs.lastStop = some .aborted := by rw [π_rs k3]; exact emitAbortedOnce_ok k2
-    refine ⟨k3, ?_⟩
+    refine ⟨k3, ?_, rfl, by simp [π_rs k3], Or.inl ⟨hab, by simp [hls]⟩⟩
     cases e <;> simp_all [Exn.isAbort, deliverRelated]
   · rw [k1, k2]
     intro _
@@ -87,12 +87,12 @@ theorem opHandler_rel {cfg : Cfg} (he : cfg.attemptEnd = none) (tl : Bool) {a : 
           by_cases h5 : e.isException = true
           · rw [if_pos h5, if_pos h5]
             intro henv
-            have hp : Plain e := by
+            have hp : OpExn e := by
               rcases hop with rfl | ⟨n, d, hm⟩
               · cases h5
               · have hin := grows_of_ext (fun w0 => callExceptionPath_ext w0 cfg a e) wc _ hm
                 have := okX_op (henv _ hin)
-                exact plain_of h1' (by simpa using h4) this.1 this.2
+                exact ⟨plain_of h1' (by simpa using h4) this.1 this.2, h5, h1', by simpa using h4⟩
             exact excPath_rel he tl hπ hatt hp henv
           · rw [if_neg h5, if_neg h5]
             intro _
@@ -109,10 +109,11 @@ theorem topErr_rel {cfg : Cfg} (he : cfg.attemptEnd = none) (tl : Bool) {a : Nat
   by_cases h1 : e.isAbort = true
   · rw [if_pos h1]
     obtain ⟨rfl, hls⟩ := hab.resolve henv h1
-    obtain ⟨o, w', q1, q2, q3, q4⟩ :=
+    obtain ⟨o, w', q1, q2, q3, q4, q5⟩ :=
       execAbortExit_noop he tl a .libAbort we1 (by rw [π_rs hπ]; exact hls)
     rw [q1]
-    exact ⟨q2.trans hπ, by simp [deliverRelated, q3, q4]⟩
+    exact ⟨q2.trans hπ, by simp [deliverRelated, q3, q4],
+      q3, by rw [q5, π_rs hπ], Or.inl ⟨rfl, q4⟩⟩
   · rw [if_neg h1]
     by_cases h2 : e = .cancelled
     · rw [if_pos h2]; exact ⟨hπ, rfl, hab⟩
@@ -209,10 +210,11 @@ theorem attempt_rel {cfg : Cfg} (hs : cfg.attemptStart = none) (he : cfg.attempt
 /-! ### the loop -/
 
 /-- call-mode result of the whole run vs execute-mode result -/
-def FinalRel (rc : EStateM.Result Exn World Nat) (re : EStateM.Result Exn World Outcome) : Prop :=
+def FinalRel (m : Nat) (rc : EStateM.Result Exn World Nat) (re : EStateM.Result Exn World Outcome) : Prop :=
   match rc, re with
   | .ok v wc, .ok o we => π we = π wc ∧ deliverRelated (.ret v) (.outcome o []) = true
-  | .error e wc, .ok o we => π we = π wc ∧ deliverRelated (.raised e) (.outcome o []) = true
+  | .error e wc, .ok o we =>
+    π we = π wc ∧ deliverRelated (.raised e) (.outcome o []) = true ∧ ErrKind m e o wc
   | .error e wc, .error e' we => π we = π wc ∧ e' = e
   | .ok _ _, .error _ _ => False
 
@@ -237,7 +239,7 @@ theorem execLoop_succ (cfg : Cfg) (tl : Bool) (fuel a : Nat) :
 /-- `raise_exhausted_call` vs `build_exhausted_outcome` -/
 theorem exhausted_rel {cfg : Cfg} (tl : Bool) {we wc : World} (hπ : π we = π wc)
     (hatt : we.attempts = cfg.maxAttempts) (hinv : LoopInv (cfg.maxAttempts + 1) wc) :
-    FinalRel (raiseExhaustedCall cfg wc) (buildExhaustedOutcome cfg tl we) := by
+    FinalRel cfg.maxAttempts (raiseExhaustedCall cfg wc) (buildExhaustedOutcome cfg tl we) := by
   unfold raiseExhaustedCall buildExhaustedOutcome
   rw [bind_run, bind_run]
   rcases (emitMaxAttemptsExceeded_sim cfg tl).step hπ with
@@ -251,14 +253,16 @@ theorem exhausted_rel {cfg : Cfg} (tl : Bool) {we wc : World} (hπ : π we = π 
     · have hm : cfg.maxAttempts = 0 := by omega
       rw [g2, g3, h2, h3]
       simp only [reduceCtorEq, if_false, throw_run]
-      exact ⟨k3, by simp [deliverRelated, hrs, g1, hatt1, hm]⟩
+      exact ⟨k3, by simp [deliverRelated, hrs, g1, hatt1, hm],
+        rfl, by simp [hrs], Or.inr (Or.inr (Or.inr ⟨rfl, hm⟩))⟩
     · rw [g2, h]
       simp only [if_true, throw_run]
-      exact ⟨k3, by simp [deliverRelated, hrs, g1, g2, h, hatt1]⟩
+      exact ⟨k3, by simp [deliverRelated, hrs, g1, g2, h, hatt1],
+        rfl, by simp [hrs], Or.inr (Or.inl ⟨⟨_, rfl, rfl⟩, by simp [hrs, g1]⟩)⟩
     · rw [g2, g3, h1, h2]
       simp only [reduceCtorEq, if_false]
-      refine ⟨k3, ?_⟩
-      rw [dr_plain h3]
+      refine ⟨k3, ?_, rfl, by simp [hrs], Or.inr (Or.inr (Or.inl ⟨h3, by rw [g3]; exact h2, by simp [hrs, g1]⟩))⟩
+      rw [dr_plain h3.1]
       simp [hrs, g2, g3, h1, h2]
   · rw [k1, k2]
     exact ⟨k3, rfl⟩
@@ -266,7 +270,7 @@ theorem exhausted_rel {cfg : Cfg} (tl : Bool) {we wc : World} (hπ : π we = π 
 theorem loop_rel {cfg : Cfg} (hs : cfg.attemptStart = none) (he : cfg.attemptEnd = none) (tl : Bool) :
     ∀ (fuel a : Nat) (we wc : World), π we = π wc → fuel + a = cfg.maxAttempts + 1 →
       we.attempts + 1 = a → LoopInv a wc → Env (finalWorld (callLoop cfg fuel a wc)).trace →
-      FinalRel (callLoop cfg fuel a wc) (execLoop cfg tl fuel a we)
+      FinalRel cfg.maxAttempts (callLoop cfg fuel a wc) (execLoop cfg tl fuel a we)
   | 0, a, we, wc, hπ, hfa, hatt, hinv, _ => by
     have ha : a = cfg.maxAttempts + 1 := by omega
     subst ha
@@ -315,14 +319,15 @@ theorem loop_rel {cfg : Cfg} (hs : cfg.attemptStart = none) (he : cfg.attemptEnd
         rw [he'] at h'
         cases y with
         | none => exact h'.elim
-        | some o => exact h'
+        | some o => exact ⟨h'.1, h'.2.1, h'.2.2.mono⟩
       | error e' we1 =>
         rw [he'] at h'
         exact ⟨h'.1, h'.2.1⟩
 
 /-- `_run_sync_call` vs `_run_sync_execute` -/
 theorem run_rel {cfg : Cfg} (hs : cfg.attemptStart = none) (he : cfg.attemptEnd = none) (w : World)
-    (henv : Env (finalWorld (runCall cfg w)).trace) : FinalRel (runCall cfg w) (runExecute cfg w) := by
+    (henv : Env (finalWorld (runCall cfg w)).trace) :
+    FinalRel cfg.maxAttempts (runCall cfg w) (runExecute cfg w) := by
   unfold runCall runExecute initState at *
   simp only [bind_run, modify_run] at henv ⊢
   exact loop_rel hs he cfg.timeline cfg.maxAttempts 1 _ _ rfl rfl rfl (Or.inl ⟨rfl, rfl, rfl⟩) henv
